@@ -26,7 +26,16 @@ CONSTANTS MaxEdits,      \* bound on the number of edits per behaviour
 (* cpub[j]: set of public inputs committed by commitment j (they enter the   *)
 (* hash that derives the commitment's public value).                         *)
 ShapeDef ==
-  [ p1   |-> [nbPub |-> 1, bound |-> <<TRUE>>,        nbCommit |-> 0, cpub |-> <<>>],
+  [
+    p1x0 |-> [nbPub |-> 1, bound |-> <<TRUE>>, nbCommit |-> 0, cpub |-> <<>>],
+    p1x1 |-> [nbPub |-> 1, bound |-> <<TRUE>>, nbCommit |-> 0, cpub |-> <<>>],
+    p1x2 |-> [nbPub |-> 1, bound |-> <<TRUE>>, nbCommit |-> 0, cpub |-> <<>>],
+    p1x3 |-> [nbPub |-> 1, bound |-> <<TRUE>>, nbCommit |-> 0, cpub |-> <<>>],
+    p1x4 |-> [nbPub |-> 1, bound |-> <<TRUE>>, nbCommit |-> 0, cpub |-> <<>>],
+    p1x5 |-> [nbPub |-> 1, bound |-> <<TRUE>>, nbCommit |-> 0, cpub |-> <<>>],
+    p1x6 |-> [nbPub |-> 1, bound |-> <<TRUE>>, nbCommit |-> 0, cpub |-> <<>>],
+    p1x7 |-> [nbPub |-> 1, bound |-> <<TRUE>>, nbCommit |-> 0, cpub |-> <<>>],
+    p1   |-> [nbPub |-> 1, bound |-> <<TRUE>>,        nbCommit |-> 0, cpub |-> <<>>],
     p2u  |-> [nbPub |-> 2, bound |-> <<TRUE, FALSE>>, nbCommit |-> 0, cpub |-> <<>>],
     c1s  |-> [nbPub |-> 1, bound |-> <<TRUE>>,        nbCommit |-> 1, cpub |-> <<{}>>],
     c1p  |-> [nbPub |-> 2, bound |-> <<TRUE, TRUE>>,  nbCommit |-> 1, cpub |-> <<{2}>>],
@@ -36,7 +45,10 @@ ShapeDef ==
     c3   |-> [nbPub |-> 2, bound |-> <<TRUE, TRUE>>,  nbCommit |-> 3, cpub |-> <<{2}, {}, {1}>>],
     c3r  |-> [nbPub |-> 2, bound |-> <<TRUE, TRUE>>,  nbCommit |-> 3, cpub |-> <<{}, {}, {2}>>] ]
 
-G1Classes == {"other", "inf", "neg", "rand", "vkel", "offsub"}
+\* "torsion": the genuine element plus a point of the cofactor torsion - outside the prime-order subgroup but
+\* invisible to the pairing equations, so only the subgroup checks can reject it
+G1Classes == {"other", "inf", "neg", "rand", "vkel", "offsub", "torsion"}
+Off(t) == t \in {"offsub", "torsion"}
 G2Classes == {"other", "inf", "neg", "rand", "vkel", "offsub"}
 
 VARIABLES shape,   \* name of the shape
@@ -157,8 +169,8 @@ RoundTrip(c) ==
 
 OwnInPlace == Len(cms) = S.nbCommit /\ \A i \in 1..Len(cms) : cms[i] = [src |-> "own", idx |-> i]
 
-AnyOffsub == ar = "offsub" \/ krs = "offsub" \/ bs = "offsub"
-CmOffsub == \E i \in 1..Len(cms) : cms[i].src = "offsub"
+AnyOffsub == Off(ar) \/ Off(krs) \/ Off(bs)
+CmOffsub == \E i \in 1..Len(cms) : Off(cms[i].src)
 
 \* public inputs whose value matters to the relation
 PubEffective == \A i \in 1..Len(pub) : i <= S.nbPub /\ pub[i] = "alt" => ~S.bound[i]
@@ -202,7 +214,7 @@ PokOk == /\ vk = "own"
             \/ pok = "inf" /\ \A i \in 1..Len(cms) : cms[i].src = "inf"
 
 DecodeStage ==
-  IF rt # "" /\ (AnyOffsub \/ CmOffsub \/ pok = "offsub") THEN "decode" ELSE "pass"
+  IF rt # "" /\ (AnyOffsub \/ CmOffsub \/ Off(pok)) THEN "decode" ELSE "pass"
 
 CodeStage ==
   IF DecodeStage = "decode" THEN "decode"
